@@ -98,7 +98,7 @@ def generate(rseed, tier, idx):
     else:
         positions = sorted({0, n, g.randrange(n + 1)})
     return {"prop": ID, "mode": mode, "vr": vr, "L": L, "perm": perm, "split": g.randint(0, n), "poison": pe,
-            "positions": positions, "as": g.choice(("tuple", "tuple", "list")), "derived": True}
+            "positions": positions, "as": g.choice(("tuple", "tuple", "list")), "container": g.choice(("list", "list", "list", "tuple")), "derived": True}
 
 
 # ---------------------------------------------------------------------------
@@ -199,7 +199,7 @@ def execute(trace):
     failed_in_base = set()
 
     def call(entries, tag, kind_for_mismatch):
-        op = {"op": "bulk", "pairs": _pairs(entries), "mode": mode, "vr": vr, "as": trace["as"]}
+        op = {"op": "bulk", "pairs": _pairs(entries), "mode": mode, "vr": vr, "as": trace["as"], "container": trace.get("container", "list")}
         r = apiops.run_op(op)
         bump("calls")
         events.append((tag, r))
